@@ -119,7 +119,10 @@ def gen_cell(rng, kind=None):
     if not cell_ok(*cell[3:]):
         cell[3:] = [90.0, 90.0, 90.0]
     rot = IDENT if rng.random() < 0.4 else rot_from_quat([rng.gauss(0, 1) for _ in range(4)])
-    return {"kind": kind, "abcABG": cell, "baserot": rot}
+    # how the lattice object came to describe this cell: built in one go, or a default Lattice() re-based in place
+    # (what the PDB / XCFG readers and `stru.lattice.setLatBase(B)` do), or parameters assigned step by step
+    hist = rng.choice([None, None, None, "rebased", "rebased", "stepwise"])
+    return {"kind": kind, "abcABG": cell, "baserot": rot, "history": hist}
 
 
 def gen_atom(rng, idx, in_cell=False):
@@ -170,6 +173,17 @@ def build(spec):
 
     lat = spec["lattice"]
     L = Lattice(*lat["abcABG"], baserot=lat["baserot"])
+    if lat.get("history") == "rebased":
+        B = [[float(x) for x in row] for row in L.base]
+        L = Lattice()
+        L.setLatBase(B)
+    elif lat.get("history") == "stepwise":
+        p = lat["abcABG"]
+        L = Lattice()
+        L.setLatPar(alpha=p[3], beta=p[4], gamma=p[5])
+        L.a = p[0]
+        L.setLatPar(b=p[1], c=p[2])
+        L.setLatPar(baserot=lat["baserot"])
     pf = spec.get("pdffit")
     if pf and pf.get("cls") == "PDFFitStructure":
         S = PDFFitStructure(lattice=L, title=spec.get("title", ""))
